@@ -3,15 +3,15 @@ LEVEL = "proof"
 TITLE = "Both storage back-ends behave as one ordered-mailbox model under any history"
 DESIGN_REF = "DESIGN.md §4 C07"
 TECHNIQUE = "machine-checked proof in Coq + model/code correspondence check"
-LEVEL_TEXT = 'proof (partial): the file-store model refines the abstract ordered-mailbox store on every history (observations and events by handle) for every cap; the memory-store model refines it on every history when no cap/size limit is configured, hence both models are observationally equivalent there; order/uniqueness/no-reuse/NotExist/remove-only-named are theorems of the abstract store. The memory model WITH limits is tied to the abstract store by the correspondence check only (1000 histories per run on the real stores, oracle = extracted spec).'
+LEVEL_TEXT = "proof: both back-end models refine the abstract ordered-mailbox store on EVERY history, observations and events by handle — the memory-store model for every cap and size limit (cap loop with first/last and the size enforcer as coded; its crash outcome is unreachable), the file-store model for every cap under the id-freshness hypothesis, which is itself derived from the environment assumption 'fewer than 10 000 deliveries per wall-clock second'; hence backends_equivalent for every cap, and list_oldest_first, latest_is_last, ids_not_reused, read_back_as_written, missing_is_not_exist, remove_only_named. The tie of the models to /repo is the correspondence check (1000 histories per run on the real stores; the verdict is the extracted spec applied to what the implementation answered)."
 LEVEL_NOTE = 'models: coq/Model/MemStore.v, FileStore.v (as coded after fixes 0003 0004 0005 0006 0010), StoreSpec.v; tie to /repo: go/cmd/c07 runs the same histories on the real mem and file stores, the verdict is StoreSpec.run_spec applied to what the implementation answered'
 RULE = ("random operation histories (4-60 ops, 1-5 mailboxes incl. names sharing a 12-bit SHA-1 prefix, '@' and special "
         "characters; missing / not-yet-issued / bogus / 'latest' handles, double removes, purge-then-latest) on a fresh real "
         "memory store and a fresh real file store; distinct = distinct input line; non-trivial = at least one add and one "
         "operation on a stored message")
 TRUSTED = ["handles: messages are named by 'k-th add to this mailbox' / 'latest' / a bogus literal; the driver's id<->handle table (Go map) is modelled by StoreSpecImpl.run_impl", 'message content is abstracted to (date, tag, size, seen): the driver checks that from/to/subject/body/mailbox read back equal what the add with that handle wrote and prints the tag only then', 'VisitMailboxes enumeration order (map / readdir order) is not compared: groups are sorted by mailbox on both sides; empty groups are dropped', 'file store: byte-level disk protocol (tmp+rename, unlink order, gob) is not in this model (C10/C11); I/O errors are not modelled', 'memory store: the size enforcer goroutine is modelled as a synchronous sub-step (callers block on md.done); creation of an empty mailbox record by reads is not modelled (unobservable)']
-ASSUMPTIONS = ['file store ids: no add returns an id that an earlier add to the same mailbox returned (file_fresh; true with fewer than 10 000 ids per wall-clock second and no two process incarnations in one second) — hypothesis of file_refines_spec']
-NOT_PROVED = ['mem_refines_spec_stmt (Proofs/MemStoreRefine.v): run_mem cfg ops = run_spec cfg spec_init ops for every cap and size limit (cap loop with first/last, enforcer all/curSize); proved only for c_cap = 0 and c_max = 0', 'backends_equivalent_stmt (Proofs/StoreSpecOrder.v): mem and file models equivalent for every cap; proved without cap', 'latest_is_last, read_back_as_written as separate theorems (they are clauses of the refinement statements: Get Latest = last of the listing; get after add returns date/tag/size as written)', "file_fresh from '<10000 adds per second': the arithmetic lemma deriving the freshness hypothesis from the clock model"]
+ASSUMPTIONS = ["file store: fewer than 10 000 deliveries fall into any one wall-clock second and a single process incarnation issues the ids (env_ok; theorem file_fresh_from_env derives the id-freshness hypothesis file_fresh of file_refines_spec from it). Several incarnations within one second are C10's restart model (fix 0010)"]
+NOT_PROVED = []
 
 
 def nontrivial(kind, ins, outs):
